@@ -43,8 +43,12 @@ def anchors() -> dict:
     return out
 
 
+def package_files(repo: Path = REPO) -> list[str]:
+    return sorted(str(q.relative_to(repo)) for q in (repo / "maze_dataset").rglob("*.py"))
+
+
 def current(repo: Path = REPO) -> dict:
-    files = sorted({f for fs in anchors().values() for f in fs})
+    files = sorted({f for fs in anchors().values() for f in fs} | set(package_files(repo)))
     return {f: file_fp(repo / f) for f in files}
 
 
@@ -53,7 +57,13 @@ def changed_for(pid: str, repo: Path = REPO) -> list[str]:
     if not saved_p.exists(): return []
     saved = json.loads(saved_p.read_text())
     if saved.get("_python") != "%d.%d" % sys.version_info[:2]: return []     # ast.dump differs between Python versions: no trigger
-    return [f for f in anchors().get(pid, []) if f in saved and file_fp(repo / f) != saved[f]]
+    anchored = [f for f in anchors().get(pid, []) if f in saved and file_fp(repo / f) != saved[f]]
+    # code the property's files import (helpers in utils.py, constants.py, token_utils.py, ...) counts as well: any other module of the
+    # package whose code changed, or that is new, is reported after the anchored ones
+    here = package_files(repo)
+    other = [f for f in here if f not in anchors().get(pid, []) and (f not in saved or file_fp(repo / f) != saved[f])]
+    gone = [f for f in saved if f.startswith("maze_dataset/") and f not in here and f not in anchors().get(pid, [])]
+    return anchored + other + gone
 
 
 if __name__ == "__main__":
